@@ -8,15 +8,19 @@ PROCS = ("and ora eor asl lsr rol ror inc dec bcc bcs beq bne bmi bpl bvc bvs br
          "dex dey inx iny jmp jsl jsr lda ldx ldy nop pha php phx phy pla plp plx ply rti rtl rts sta stx sty stz tax tay tsx txa tya "
          "txs txy tyx mvn mvp phb phd phk pea per pld plb rep sep stp tcd tcs tdc tsc trb tsb wdm xba xce").split()
 CASES_MODE = {"jmp"}
-def thm(v, p):
+ALT_BARE = {"stp"}          # cpualt names these routines without the op_ prefix
+EXTRA = {"Primary": [("op_wai", "nop")], "Alt": [("wai", "nop")]}   # further table routines and the constructor procOfName gives them
+def thm(v, p, fn=None):
     ns = "Gen.CpuGo." + v
+    if fn is None:
+        fn = p if (v == "Alt" and p in ALT_BARE) else "op_" + p
     attr = "gotie_p" if v == "Primary" else "gotie_a"
     split = "  cases hm : s.r.Mode <;> gorun [shr16, Cpu.setZN8, Cpu.setZN16]\n" if p in CASES_MODE else (
         "  gorun [shr16, Cpu.setZN8, Cpu.setZN16, Cpu.setZ8, Cpu.setZ16, Cpu.toIndex, Cpu.toAcc, Cpu.srcC, Cpu.srcX, Cpu.srcY, Cpu.compare8,\n"
         "    Cpu.compare16, Cpu.addBranchCycles]\n")
     extra = ", get_bind" if p in CASES_MODE else ""
-    return (f"theorem op_{p}_eq : {ns}.op_{p} = Cpu.runP .{p} := by\n  funext s\n"
-            f"  simp only [{ns}.op_{p}, Cpu.runP, Cpu.logic, Cpu.rmw, Cpu.branchIf, Cpu.blockMove, Cpu.interruptLike,\n"
+    return (f"theorem {fn}_eq : {ns}.{fn} = Cpu.runP .{p} := by\n  funext s\n"
+            f"  simp only [{ns}.{fn}, Cpu.runP, Cpu.logic, Cpu.rmw, Cpu.branchIf, Cpu.blockMove, Cpu.interruptLike,\n"
             f"    Cpu.interruptBody, Cpu.rtiBody, {attr}{extra}]\n" + split + "\n")
 for v in ("Primary", "Alt"):
     n = (len(PROCS) + 3) // 4
@@ -26,6 +30,8 @@ for v in ("Primary", "Alt"):
                f"Written by tools/mkgotie.py (one proof script for all routines).\n-/\nimport SnesVerif.Cpu.GoTie.Flags{v}\n"
                f"namespace Cpu.GoTie.{v}\nopen Cpu Cpu.GoPrim Cpu.GoTie\nset_option maxRecDepth 100000\nset_option linter.unusedSimpArgs false\n\n")
         txt += "".join(thm(v, p) for p in chunk)
+        if k == 3:
+            txt += "".join(thm(v, p, fn) for fn, p in EXTRA[v])
         txt += f"end Cpu.GoTie.{v}\n"
         open(os.path.join(ROOT, f"Ops{v}{k + 1}.lean"), "w").write(txt)
 print("written")
